@@ -557,7 +557,8 @@ func splitTags(head string) (kind string, tags []string, label string) {
 		kind = head[:i]
 		inner := head[i+1 : len(head)-1]
 		for _, t := range strings.FieldsFunc(inner, func(r rune) bool { return r == ',' || r == ' ' }) {
-			if strings.HasPrefix(t, "C") && len(t) >= 3 && unicode.IsDigit(rune(t[1])) {
+			if (strings.HasPrefix(t, "C") && len(t) >= 3 && unicode.IsDigit(rune(t[1]))) || t == "T" {
+				// T = thorough tier only (obligations that need more solver time than the quick budget allows)
 				tags = append(tags, t)
 			} else {
 				label = t
